@@ -8,7 +8,14 @@ output (which diagram, under which geometry / which grid arguments) compared wit
 (driver ops `imgT.hist`, `lsc.hist`).  Imager histories of this stream are dyadic with power-of-two pixel sizes,
 so the code's float arithmetic is exact and the comparison is exact (rounding is C12's business).
 [T]: the laws themselves on the real code with arbitrary floats: fit;transform == fit_transform, transform twice
-equal with `__dict__` unchanged, collections map element-wise in order, refits forget.
+equal with `__dict__` unchanged, collections map element-wise in order, refits forget — also when the refit runs on
+`sklearn.base.clone(obj)`, on the clone of a `Pipeline` holding the object, or after `set_params(**get_params())`.
+
+Several theorems hold BY CONSTRUCTION of the model (`imager_transform_pure(_history)`, `landscaper_transform_pure`,
+`landscaper_fit_then_transform(_history)`: a `transform` call of the model returns the state it was given, and
+`lfitTransform` is defined as `lfit` then `ltransform`).  They say nothing about the code by themselves; they rest on
+the per-call comparison of the whole `__dict__` before/after every transform / repr / get_params call and of every
+fit_transform output with PersLandscapeApprox on the model's arguments (BY_CONSTRUCTION below, reported in the evidence).
 """
 import copy
 import math
@@ -19,18 +26,38 @@ from ..common import enc, ask
 LEVEL = "proof"
 RULE = ("call sequences generated from one PRNG. Landscaper: constructor with any subset of {start, stop} given, 0-12 calls from "
         "{start=, stop= (attribute or set_params, value or None), num_steps=, flatten=, hom_deg=, fit, transform, fit_transform, "
-        "repr/get_params reads} on 1-3 diagrams of 0-6 bars (lattice/dyadic/decimal/uniform coordinates, empty diagrams and "
-        "out-of-range hom_deg for the error paths). Imager: constructor with any subset of ranges/pixel size, 0-10 calls from "
+        "repr/get_params reads, sklearn.base.clone (the history goes on with the clone), set_params(**get_params())} on 1-3 diagrams "
+        "of 0-6 bars (lattice/dyadic/decimal/uniform coordinates; empty diagrams and out-of-range hom_deg for the error paths; a "
+        "quarter of the non-empty diagrams carry points with an infinite death, a -inf birth or a NaN, a fifth of those are "
+        "all-infinite); a quarter of the histories are refit pipelines (fit / fit_transform on one fold, clone or "
+        "set_params(**get_params()) or nothing, refit on another fold, 2-4 rounds). Imager: constructor with any subset of ranges/pixel size, 0-10 calls from "
         "{birth_range=, pers_range=, pixel_size=, fit, transform, fit_transform} with single diagrams, collections (also with empty "
         "members) and empty inputs. non-trivial = at least one fit or fit_transform followed by another call; distinct by digest")
 ASSUMPTIONS = [
-    "finite coordinates; diagrams are float arrays of shape (-,2)",
+    "diagrams are float arrays of shape (-,2); landscaper diagrams may contain non-finite coordinates (ignored by fit), imager "
+    "diagrams are finite; user-assigned start/stop are finite numbers or None",
+    "sklearn.base.clone(obj) = type(obj)(**obj.get_params()) and set_params(**p) = setattr per parameter (exercised on every run)",
     "sklearn TransformerMixin.fit_transform(X) = fit(X).transform(X) (compared on every fit_transform call of the landscaper)",
     "copy.deepcopy of the argument equals the argument (the imager's fit_transform works on a deep copy)",
     "attributes compared exactly (landscaper start/stop are data values; imager histories of the correspondence stream are dyadic); "
     "outputs compared with np.array_equal against the image / landscape the model says they are",
 ]
 MAXV = 5
+# theorems that carry a clause of the property and have content of their own …
+CORE_THEOREMS = [
+    "PersimVerif.C18.imager_fit_forgets", "PersimVerif.C18.imager_fit_forgets_histories",
+    "PersimVerif.C18.imager_fit_then_transform", "PersimVerif.C18.imager_map_in_order",
+    "PersimVerif.C18.landscaper_fit_forgets", "PersimVerif.C18.landscaper_clone_is_unfitted",
+    "PersimVerif.C18.landscaper_fit_rejects",
+]
+# … clauses that hold by construction of the model (`rfl` / list induction over a model whose transform returns its state);
+# they rest on the per-call __dict__ / output comparisons of this harness …
+BY_CONSTRUCTION = [
+    "PersimVerif.C18.imager_transform_pure", "PersimVerif.C18.imager_transform_pure_history",
+    "PersimVerif.C18.imager_fit_then_transform_history", "PersimVerif.C18.landscaper_fit_then_transform",
+    "PersimVerif.C18.landscaper_fit_then_transform_history", "PersimVerif.C18.landscaper_transform_pure",
+]
+# … and the rest are decided counterexamples for the three pre-fix behaviours (concrete instances).
 
 
 def PI():
@@ -61,7 +88,11 @@ def deep_eq(a, b):
     if callable(a) or callable(b):
         return a is b
     try:
-        return bool(a == b) and type(a) == type(b)
+        if type(a) != type(b):
+            return False
+        if isinstance(a, (float, np.floating)) and a != a and b != b:      # an unchanged NaN attribute is unchanged
+            return True
+        return bool(a == b)
     except Exception:
         return False
 
@@ -96,7 +127,8 @@ def l_dgms(X):
 
 
 def l_apply(obj, call):
-    """returns the call's return value (None for assignments)"""
+    """returns (the object the history goes on with, the call's return value (None for assignments)).
+    `cl` replaces the object by sklearn.base.clone(obj); every other call returns the object itself."""
     k = call[0]
     if k in ("ss", "st"):
         name = "start" if k == "ss" else "stop"
@@ -104,24 +136,35 @@ def l_apply(obj, call):
             setattr(obj, name, call[1])
         else:
             obj.set_params(**{name: call[1]})
-        return None
+        return obj, None
     if k == "ns":
-        obj.num_steps = call[1]; return None
+        obj.num_steps = call[1]; return obj, None
     if k == "fl":
-        obj.flatten = call[1]; return None
+        obj.flatten = call[1]; return obj, None
     if k == "hd":
-        obj.hom_deg = call[1]; return None
+        obj.hom_deg = call[1]; return obj, None
     if k == "read":
-        repr(obj); obj.get_params(); return None
+        repr(obj); obj.get_params(); return obj, None
+    if k == "cl":
+        from sklearn.base import clone
+        new = clone(obj)
+        if new is obj or type(new) is not type(obj):
+            raise common.HarnessError("sklearn.base.clone did not return a new PersistenceLandscaper")
+        return new, None
+    if k == "spg":
+        r = obj.set_params(**obj.get_params())
+        if r is not obj:
+            raise common.HarnessError("set_params did not return self")
+        return obj, None
     if k == "fit":
         r = obj.fit(l_dgms(call[1]))
         if r is not obj:
             raise common.HarnessError("PersistenceLandscaper.fit did not return self")
-        return None
+        return obj, None
     if k == "tr":
-        return obj.transform(l_dgms(call[1]))
+        return obj, obj.transform(l_dgms(call[1]))
     if k == "ft":
-        return obj.fit_transform(l_dgms(call[1]))
+        return obj, obj.fit_transform(l_dgms(call[1]))
     raise common.HarnessError("unknown landscaper call %r" % (call,))
 
 
@@ -133,6 +176,8 @@ def l_enc_call(call):
         return "[%s,%d]" % (k, call[1])
     if k == "fl":
         return "[fl,%s]" % enc(bool(call[1]))
+    if k in ("cl", "spg"):
+        return "[%s]" % k
     return "[%s,%s]" % (k, enc(call[1]))
 
 
@@ -163,6 +208,10 @@ def l_run_real(case):
         for call in case["calls"]:
             before = snap_dict(obj) if call[0] in ("tr", "read") else None
             st, v, _ = common.call(l_apply, obj, call)
+            if st == "err" and v == "HarnessError":
+                raise common.HarnessError("landscaper call %r broke the harness's own expectations" % (call[0],))
+            if st != "err":
+                obj, v = v
             impure = before is not None and not deep_eq(before, snap_dict(obj))
             if call[0] == "read":
                 if impure:
@@ -214,16 +263,34 @@ class LGen:
     def value(self):
         return float(self.g.coord(self.mode))
 
-    def X(self, bad=0.1):
+    def X(self, bad=0.1, inf=0.25):
+        """1-3 diagrams; a member is empty with probability `bad`; with probability `inf` a non-empty member gets
+        non-finite points: an infinite death (the essential class of H0), more rarely a -inf birth or a NaN, and in a
+        fifth of those cases ALL its points are made infinite (fit must then behave as on an empty diagram)"""
         r = self.r
         n = r.randint(1, 3)
         X = []
         for _ in range(n):
             if r.random() < bad:
                 X.append([])
+                continue
+            m = r.randint(1, 6)
+            d = [self.g.bar(self.mode, allow_diag=False) for _ in range(m)]
+            if r.random() < inf:
+                t = r.random()
+                if t < 0.2:
+                    d = [[b, math.inf] for b, _ in d]
+                    self.ctx.count("ldgm:all_infinite")
+                else:
+                    for _ in range(r.randint(1, 2)):
+                        u = r.random()
+                        pt = [self.value(), math.inf] if u < 0.7 else ([-math.inf, self.value()] if u < 0.85 else
+                                                                     r.choice([[self.value(), math.nan], [math.nan, self.value()]]))
+                        d.insert(r.randint(0, len(d)), pt)
+                    self.ctx.count("ldgm:some_nonfinite")
             else:
-                m = r.randint(1, 6)
-                X.append([self.g.bar(self.mode, allow_diag=False) for _ in range(m)])
+                self.ctx.count("ldgm:finite")
+            X.append(d)
         return X
 
     def optval(self):
@@ -231,7 +298,7 @@ class LGen:
 
     def call(self):
         r = self.r
-        k = r.choice(["ss", "st", "ns", "fl", "hd", "fit", "fit", "fit", "tr", "tr", "ft", "ft", "read"])
+        k = r.choice(["ss", "st", "ns", "fl", "hd", "fit", "fit", "fit", "tr", "tr", "ft", "ft", "read", "cl", "cl", "spg"])
         if k in ("ss", "st"):
             return [k, self.optval(), r.choice(["attr", "attr", "set_params"])]
         if k == "ns":
@@ -240,9 +307,30 @@ class LGen:
             return [k, r.random() < 0.5]
         if k == "hd":
             return [k, r.choice([0, 0, 1, 1, 2, 3, -1])]
-        if k == "read":
+        if k in ("read", "cl", "spg"):
             return [k]
         return [k, self.X()]
+
+    def refit_pipeline(self):
+        """the cross-validation pattern: fit on one fold, then clone / set_params(**get_params()) / nothing, refit on
+        another fold, transform; 2-4 rounds, user assignments now and then"""
+        r = self.r
+        calls = []
+        for _ in range(r.randint(2, 4)):
+            X = self.X(bad=0.0)
+            calls.append([r.choice(["fit", "fit", "ft"]), X])
+            if r.random() < 0.5:
+                calls.append(["tr", r.choice([X, self.X(bad=0.0)])])
+            t = r.random()
+            if t < 0.45:
+                calls.append(["cl"])
+            elif t < 0.7:
+                calls.append(["spg"])
+            elif t < 0.8:
+                calls.append(["read"])
+            if r.random() < 0.15:
+                calls.append([r.choice(["ss", "st"]), self.optval(), r.choice(["attr", "set_params"])])
+        return calls
 
     def history(self):
         r = self.r
@@ -252,6 +340,10 @@ class LGen:
             c["start"] = self.value()
         if r.random() < 0.3:
             c["stop"] = self.value() + 20
+        if r.random() < 0.25:
+            c["hom_deg"] = 0
+            self.ctx.count("landscaper_refit_pipelines")
+            return {"ctor": c, "calls": self.refit_pipeline()}
         return {"ctor": c, "calls": [self.call() for _ in range(r.randint(0, 12))]}
 
 
@@ -262,6 +354,12 @@ L_CORPUS = [
      "calls": [["fit", [[[0.0, 4.0]]]], ["ss", None, "attr"], ["fit", [[[2.0, 10.0]]]], ["st", 12.0, "set_params"], ["ft", [[[3.0, 5.0], [1.0, 2.0]]]]]},
     {"ctor": {"hom_deg": 1, "start": None, "stop": None, "num_steps": 5, "flatten": None},
      "calls": [["fit", [[[0.0, 4.0]]]], ["fit", [[[0.0, 4.0]], []]], ["ft", [[[0.0, 3.0], [1.0, 4.0]], [[1.0, 4.0]]]]]},
+    {"ctor": {"hom_deg": 0, "start": None, "stop": None, "num_steps": 10, "flatten": None},
+     "calls": [["fit", [[[0.0, 4.0]]]], ["cl"], ["fit", [[[2.0, 10.0]]]], ["tr", [[[2.0, 10.0]]]]]},                      # 4d8db3a (clone)
+    {"ctor": {"hom_deg": 0, "start": None, "stop": 7.0, "num_steps": 10, "flatten": None},
+     "calls": [["fit", [[[0.0, 4.0]]]], ["spg"], ["tr", [[[1.0, 3.0]]]], ["fit", [[[2.0, 10.0]]]], ["cl"], ["ft", [[[3.0, 5.0]]]]]},  # 4d8db3a (set_params)
+    {"ctor": {"hom_deg": 0, "start": None, "stop": None, "num_steps": 10, "flatten": None},
+     "calls": [["ft", [[[0.0, 3.0], [1.0, 4.0], [0.0, math.inf]]]], ["fit", [[[0.0, math.inf]]]], ["fit", [[[1.0, 2.0], [-math.inf, 5.0], [0.5, math.nan]]]]]},  # b209c93
 ]
 
 
@@ -273,26 +371,60 @@ def l_laws(ctx, case, X0=None):
     with np.errstate(all="ignore"):
         obj = l_construct(case["ctor"])
         for call in case["calls"]:
-            common.call(l_apply, obj, call)
+            res = common.call(l_apply, obj, call)
+            if res[0] == "ok":
+                obj = res[1][0]
         X = g.X(bad=0.0) if X0 is None else X0
+        law = case.get("law") if X0 is not None else None       # replay: the recorded choices of this function
+        if law is not None:
+            obj.hom_deg = law["hom_deg"]
         while len(X) <= obj.hom_deg or obj.hom_deg < 0:
             obj.hom_deg = ctx.rng.randint(0, len(X) - 1)
-        # what the user fixed: the last assignment of the history (constructor counts)
+        # what the user fixed: the last assignment of the history (constructor counts); clone and
+        # set_params(**get_params()) are not assignments by the user
         user = {"start": case["ctor"].get("start"), "stop": case["ctor"].get("stop")}
         for call in case["calls"]:
             if call[0] == "ss":
                 user["start"] = call[1]
             if call[0] == "st":
                 user["stop"] = call[1]
+        # the cross-validation pattern on top of the history: the refit runs on the object itself, on its clone, or
+        # on the clone of a Pipeline holding it (clone() of a Pipeline clones its steps), before or after a
+        # set_params(**get_params()) round trip
+        how = ctx.rng.choice(["self", "self", "clone", "clone", "spg", "pipeline"]) if law is None else law["how"]
+        case["law"] = {"how": how, "hom_deg": int(obj.hom_deg)}
+        ctx.count("law_refit_on:" + how)
+        if how == "clone":
+            from sklearn.base import clone
+            obj = clone(obj)
+        elif how == "spg":
+            obj.set_params(**obj.get_params())
+        elif how == "pipeline":
+            from sklearn.base import clone
+            from sklearn.pipeline import Pipeline
+            obj = clone(Pipeline([("landscaper", obj)])).named_steps["landscaper"]
         o1, o2 = copy.deepcopy(obj), copy.deepcopy(obj)
-        # refit forgets
-        o1.fit(l_dgms(X))
+        # refit forgets: start/stop = the user's value, else min birth / max death over the points of this fit's
+        # diagram that have finite coordinates
         d = arr(X[o1.hom_deg])
+        d = d[np.all(np.isfinite(d), axis=1)]
+        before_fit = snap_dict(o1)
+        rf = common.call(o1.fit, l_dgms(X))
+        if len(d) == 0 and (user["start"] is None or user["stop"] is None):
+            if not (rf[0] == "err" and rf[1] == "ValueError"):
+                return False, "fit on a diagram without a finite point and without user-fixed start and stop: %s, expected ValueError" % (
+                    "returned" if rf[0] == "ok" else rf[1]), X
+            if not deep_eq(before_fit, snap_dict(o1)):
+                return False, "a fit that raised changed the object", X
+            return True, "", X
+        if rf[0] == "err":
+            return False, "fit raised %s on a diagram with %d finite point(s)" % (rf[1], len(d)), X
         want = (user["start"] if user["start"] is not None else float(d[:, 0].min()),
                 user["stop"] if user["stop"] is not None else float(d[:, 1].max()))
-        if (float(o1.start), float(o1.stop)) != want:
-            return False, "after the history, fit(X) gives (start, stop) = %r; user-fixed values / data of this fit give %r" % (
-                (float(o1.start), float(o1.stop)), want), X
+        got = (None if o1.start is None else float(o1.start), None if o1.stop is None else float(o1.stop))
+        if got != want:
+            return False, "after the history (refit on: %s), fit(X) gives (start, stop) = %r; user-fixed values / finite data of this fit give %r" % (
+                how, got, want), X
         # fit;transform == fit_transform
         before = snap_dict(o1)
         r1 = common.call(o1.transform, l_dgms(X))
@@ -645,6 +777,8 @@ def report_impure(ctx, which, cases, recs_all):
 
 def _run(ctx):
     common.import_persim()
+    ctx.extra["core_theorems"] = CORE_THEOREMS
+    ctx.extra["theorems_by_construction_of_the_model"] = BY_CONSTRUCTION
     ctx.extra["anchors_digest"] = {
         "images.py": common.source_digest("persim/images.py", ["fit", "transform", "fit_transform", "_ensure_iterable"]),
         "landscapes/transformer.py": common.source_digest("persim/landscapes/transformer.py"),
@@ -751,7 +885,12 @@ def l_reproducer(case):
         elif x[0] in ("ns", "fl", "hd"):
             lines.append("t.%s = %r" % ({"ns": "num_steps", "fl": "flatten", "hd": "hom_deg"}[x[0]], x[1]))
         elif x[0] in ("fit", "tr", "ft"):
-            lines.append("t.%s([np.array(d, dtype=float).reshape(-1, 2) for d in %r])" % ({"fit": "fit", "tr": "transform", "ft": "fit_transform"}[x[0]], x[1]))
+            lines.append("t.%s([np.array(d, dtype=float).reshape(-1, 2) for d in %s])" % (
+                {"fit": "fit", "tr": "transform", "ft": "fit_transform"}[x[0]], repr(x[1]).replace("inf", "np.inf").replace("nan", "np.nan")))
+        elif x[0] == "cl":
+            lines.append("import sklearn.base; t = sklearn.base.clone(t)")
+        elif x[0] == "spg":
+            lines.append("t.set_params(**t.get_params())")
     lines.append("print(t.start, t.stop)")
     return "; ".join(lines)
 
@@ -823,17 +962,26 @@ def i_law_replay(case):
 
 
 MANIFEST = {
-    "text": "Proof: Lean theorems about the state-machine models of PersistenceImager (fit/transform/fit_transform on the C12 geometry "
-            "state) and PersistenceLandscaper (start/stop with the user-fixed flags): fit_transform = transform after fit for both "
-            "(the imager's deepcopy is irrelevant); transform returns the state unchanged and is repeatable; a collection maps to the list "
-            "of per-diagram images in order, one diagram to the bare image, an empty input to zeros of the resolution; fit on the imager "
-            "depends on the earlier history only through pixel_size (for every pair of histories), and for every landscaper history "
-            "fit gives start/stop = the user's last assignment if any, else min birth / max death of this fit's data; the pre-fix "
-            "landscaper fit is refuted by a decided counterexample. The models are tied to the code on every run by random call "
-            "sequences with public attributes and output structure compared after every call.",
+    "text": "Proof (16 theorems, of which 7 core, 6 true by construction of the model, 3 decided counterexamples): Lean theorems about "
+            "the state-machine models of PersistenceImager (fit/transform/fit_transform on the C12 geometry state) and "
+            "PersistenceLandscaper (start/stop with the user-fixed flags, get_params, fit with the finiteness filter, sklearn clone and "
+            "set_params(**get_params()) as calls of the history). Core: fit on the imager depends on the earlier history only through "
+            "pixel_size (for every pair of histories); the imager's fit_transform = transform after fit (its deepcopy is irrelevant); a "
+            "collection maps to the list of per-diagram images in order, one diagram to the bare image, an empty input to zeros of the "
+            "resolution; for every landscaper history - including clones and get_params round trips - fit gives start/stop = the user's "
+            "last assignment if any, else min birth / max death over the points of this fit's diagram with finite coordinates; a clone is "
+            "the unfitted object with the user's parameters; fit rejects exactly an out-of-range degree and a diagram without a finite "
+            "point when an end is not user-fixed. By construction of the model (rfl / list induction; they rest on the per-call "
+            "comparison of the whole __dict__ and of the outputs on every run): transform returns the state unchanged and is repeatable, "
+            "transforms can be deleted from any history, the landscaper's fit_transform = fit then transform. The pre-9596bd3 fit, the "
+            "pre-4d8db3a get_params (clone / set_params round trip freeze learned values) and the pre-b209c93 fit (stop = inf) are "
+            "refuted by decided counterexamples. The models are tied to the code on every run by random call sequences with public "
+            "attributes and output structure compared after every call.",
     "note": "Trusted: Lean kernel + Mathlib, axioms propext/Classical.choice/Quot.sound; the correspondence harness; sklearn's "
-            "TransformerMixin.fit_transform and copy.deepcopy as modelled (both exercised on every run). The per-diagram image and "
-            "PersLandscapeApprox are abstract parameters of the model (their content is C04/C11 and C08). The laws are additionally "
-            "evaluated on the real code with arbitrary floats as [T] tests.",
+            "TransformerMixin.fit_transform, base.clone, set_params and copy.deepcopy as modelled (all exercised on every run). The "
+            "per-diagram image and PersLandscapeApprox are abstract parameters of the model (their content is C04/C11 and C08); "
+            "np.isfinite is a predicate parameter. The driver computes every state with irun/lrun (the functions of the theorems) on the "
+            "prefixes of a history. The laws are additionally evaluated on the real code with arbitrary floats as [T] tests, the refit "
+            "law also on a clone, on the clone of a Pipeline holding the object and after set_params(**get_params()).",
     "technique": "Lean 4 theorems over state-machine models + differential correspondence on call sequences + metamorphic tests",
 }
